@@ -119,7 +119,8 @@ def group_sections(g, sockdir, changed=False):
     return secs
 
 
-def scenario_files(sc, sockdir):
+def scenario_files(sc, sockdir, added_logs=False):
+    """(old sections, new sections); with added_logs the added programs name their stdout log file"""
     old, new = [], []
     for g in sc['groups']:
         old += group_sections(g, sockdir)
@@ -128,7 +129,8 @@ def scenario_files(sc, sockdir):
         elif g['fate'] == 'change':
             new += group_sections(g, sockdir, changed=True)
     for n in sc['added']:
-        new.append(('program:%s' % n, [('command', '/sim/ok/%s' % n)]))
+        new.append(('program:%s' % n, [('command', '/sim/ok/%s' % n)]
+                    + ([('stdout_logfile', '%s/%s.out.log' % (sockdir, n))] if added_logs else [])))
     return old, new
 
 
